@@ -25,12 +25,13 @@ def space(ctx):
     not run yet; eager = once per history the jobs launched by the next request run to completion (callback
     included) before that request returns, as a fast disk thread does; purge_mid = a purge of the key may be handled
     between a page-out job's attach and its unlink; trim = the store is configured with more than the machine offers
-    and has to trim itself to the capacity; stale_writers = the 16-minute jump may also happen while a writer is open (the store then treats the
+    and has to trim itself to the capacity; rewrite = a key purged while being written may be allocated again (by another
+    client) before the first writer closes; stale_writers = the 16-minute jump may also happen while a writer is open (the store then treats the
     unfinished dataset as abandoned and may page it out)."""
     quick = [(4, 8, SIZES, {}), (5, 7, SIZES, {}), (13500, 6, BIG, {}), (4, 7, SIZES, {"split": True}), (4, 7, SIZES, {"stale_writers": True}),
-             (4, 7, SIZES, {"eager": True}), (4, 7, SIZES, {"purge_mid": True, "trim": True})]
+             (4, 7, SIZES, {"eager": True}), (4, 7, SIZES, {"purge_mid": True, "trim": True}), (4, 6, SIZES, {"rewrite": True})]
     thorough = [(4, 13, SIZES, {}), (5, 12, SIZES, {}), (13500, 10, BIG, {}), (4, 11, SIZES, {"split": True}), (5, 10, SIZES, {"split": True}),
-                (4, 11, SIZES, {"stale_writers": True}), (4, 9, SIZES, {"stale_writers": True, "split": True}), (4, 11, SIZES, {"eager": True}), (5, 10, SIZES, {"eager": True}), (4, 11, SIZES, {"purge_mid": True, "trim": True})]
+                (4, 11, SIZES, {"stale_writers": True}), (4, 9, SIZES, {"stale_writers": True, "split": True}), (4, 11, SIZES, {"eager": True}), (5, 10, SIZES, {"eager": True}), (4, 11, SIZES, {"purge_mid": True, "trim": True}), (4, 10, SIZES, {"rewrite": True})]
     return ctx.pick(quick, thorough)
 
 
@@ -48,7 +49,7 @@ def explore(ctx, prop: str, with_liveness: bool):
             cfg["age"] = "writers"
         if opt.get("eager"):
             cfg["eager"] = True
-        for o in ("purge_mid", "trim"):
+        for o in ("purge_mid", "trim", "rewrite"):
             if opt.get(o):
                 cfg[o] = True  # C09 also lets readers grow older than the staleness window
 
